@@ -714,7 +714,9 @@ class StrainEnergy:
             self._unrotated_cPrec_4th = value
         else:
             raise ValueError("Precipitate tensor must be 2nd rank (6x6) or 4th rank (3x3x3x3)")
-        self.update()
+        # without matrix constants update() falls back to a constant strain energy, which would discard the precipitate shape set by the user
+        if self._unrotated_cMatrix_4th.any():
+            self.update()
 
     def setShape(self, shape):
         # TODO: this creates an instance of the function, can we not do that?
